@@ -1,6 +1,8 @@
 package main
 
 import (
+	"go/token"
+	"go/types"
 	"fmt"
 	"strings"
 
@@ -11,6 +13,10 @@ func propC17(c *Ctx, r *Report) {
 	r.Explain = "Decides that ledger writes and history/status writes are paired inside the block transaction: (P1) in recordBatch every iteration that debits also sets the batch's status to the executing height, before any `continue`, error propagated; (P2) every rejection branch of both executors records a negative status before skipping (validation failure -2, the IsRejectedTx code of the sentinel, insufficient balance -1) with the error of that write propagated; (P3) every `return nil` of applyTransactionBatch is dominated by a successful recordBatch (a batch reported as applied has been recorded); (P4) the converted amount, PEG yield and refund written to history are the same SSA values that are credited; (P5) the arrival row is written with the literal status 0; (P6) status codes are negative and distinct; (P7) a lookup row is written for the input address of every transaction and the address of every transfer, unconditionally."
 	r.NotDec = "that replaying the recorded history reproduces balances; exactly-once across pages (SQL ORDER BY/LIMIT behaviour); count/data predicate equivalence of the history queries"
 	r.Trusted = []string{"go/ssa", "SQLite"}
+	// a held batch's status is decided from the database, not from memory an aborted attempt left behind
+	ruleNoCarriedReads(c, newSharedAnalysis(c), r, "C17-P8/no-carried-state", reachOf(c, "node.Pegnetd.ApplyTransactionBatchesInHolding", "node.Pegnetd.ApplyTransactionBlock"), carriedAllowedAverages, "the batch executors")
+	// each recorded action is returned as recorded: per-row records of the history readers are fresh
+	ruleRowRecordFresh(c, r, "C17-P9/row-record-fresh", c.RAPI)
 	rb := c.fn("node.Pegnetd.recordBatch")
 	hold := c.fn("node.Pegnetd.ApplyTransactionBatchesInHolding")
 	atbk := c.fn("node.Pegnetd.ApplyTransactionBlock")
@@ -262,4 +268,57 @@ func sortStrings(s []string) {
 			s[j], s[j-1] = s[j-1], s[j]
 		}
 	}
+}
+
+// ruleRowRecordFresh: a record appended once per result row is built in a variable that is fresh for every row. A
+// struct declared outside the rows loop keeps, for a later row, every field that this row's branch does not assign
+// (e.g. the outputs of the previous action), so an action is returned with data of another one.
+func ruleRowRecordFresh(c *Ctx, r *Report, rule string, scope map[*ssa.Function]bool) {
+	r.rule(rule, 1, "records built from result rows do not carry fields over from the previous row")
+	n := 0
+	for _, f := range sortedFuncs(scope) {
+		for _, l := range naturalLoops(f) {
+			// a loop driven by rows.Next()
+			driven := false
+			for b := range l.blocks {
+				for _, ins := range b.Instrs {
+					if ci, ok := ins.(ssa.CallInstruction); ok && calleeName(ci.Common()) == "database/sql.Rows.Next" {
+						driven = true
+					}
+				}
+			}
+			if !driven {
+				continue
+			}
+			for b := range l.blocks {
+				for _, ins := range b.Instrs {
+					call, ok := ins.(*ssa.Call)
+					if !ok {
+						continue
+					}
+					bi, ok := call.Call.Value.(*ssa.Builtin)
+					if !ok || bi.Name() != "append" || len(call.Call.Args) < 2 {
+						continue
+					}
+					for _, el := range varargElems(call.Call.Args[1]) {
+						u, ok := el.(*ssa.UnOp)
+						if !ok || u.Op != token.MUL {
+							continue
+						}
+						al, ok := u.X.(*ssa.Alloc)
+						if !ok {
+							continue
+						}
+						if _, isStruct := u.Type().Underlying().(*types.Struct); !isStruct {
+							continue
+						}
+						n++
+						cons := fmt.Sprintf("%s appends a %s per row", fname(f), shortType(u.Type()))
+						r.check(l.blocks[al.Block()], rule, cons, c.ipos(call), "the record variable is declared inside the rows loop", "the record variable is declared outside the rows loop at "+c.pos(al.Pos())+": fields that a row's branch does not assign keep the previous row's values")
+					}
+				}
+			}
+		}
+	}
+	r.Extra["row_record_loops"] = n
 }
